@@ -3,7 +3,7 @@
 use printer::{Print, tokens::CREATE};
 
 use super::CodeStatement;
-use crate::fresh_labels::fresh_label;
+use crate::fresh_labels::fresh_table_label;
 use crate::utils::{code_methods, code_table};
 use crate::{
     code::Instructions,
@@ -53,14 +53,18 @@ impl CodeStatement for Create {
         );
         Backend::store(closure_environment.clone().into(), &context, instructions);
 
-        let fresh_label = format!(
-            "{}_{}",
-            self.ty
+        let fresh_label = fresh_table_label(
+            &self
+                .ty
                 .print_to_string(None)
                 .replace('[', "_")
                 .replace(", ", "_")
                 .replace(']', ""),
-            fresh_label()
+            &self
+                .clauses
+                .iter()
+                .map(|clause| clause.xtor.print_to_string(None))
+                .collect::<Vec<_>>(),
         );
 
         context.bindings.push(ContextBinding {
